@@ -98,6 +98,13 @@ class _Memo:
             r = self.un[k] = (t, a)
         return r[0]
 
+    def ite(self, c, a, b):
+        k = ('ite', tid(c), tid(a), tid(b))
+        r = self.bin.get(k)
+        if r is None:
+            r = self.bin[k] = (z3.If(c, a, b), (c, a, b))
+        return r[0]
+
     def app(self, f, *args):
         k = ('app', f.name(), tuple(tid(a) for a in args))
         r = self.bin.get(k)
@@ -256,6 +263,17 @@ class Engine:
     def hash_of(self, cid):
         from .proxies import SymHash, _unwrap
         return SymHash(_unwrap(cid))
+
+    def pos_of(self, cid):
+        from .proxies import pos_of
+        return pos_of(cid)
+
+    def prefix_hash_of(self, cid, k):
+        """digest of the first k bytes (k a concrete int) of content cid in the chunked content model"""
+        from .proxies import SymHash, _unwrap, pos_of
+        c = _unwrap(cid)
+        inside = M.op2('<', _unwrap(pos_of(cid)), M.intval(k))
+        return SymHash((M.intval(k), inside, M.ite(inside, c, M.intval(0))))
 
     def register_literals(self, lits):
         from .proxies import register_literals
